@@ -69,6 +69,33 @@ func echoStep() schema.CallableStep {
 	)
 }
 
+// The "opt" step: every property of its input is optional or defaulted, so that an empty object is a valid input
+// while "no input at all" (nil) is not an object and must come back as the step's error.
+type optData struct {
+	X int64  `json:"x"`
+	Y string `json:"y"`
+}
+
+func optScope(id string) *schema.ScopeSchema {
+	return schema.NewScopeSchema(schema.NewStructMappedObjectSchema[optData](id, map[string]*schema.PropertySchema{
+		"x": schema.NewPropertySchema(schema.NewIntSchema(nil, nil, nil), nil, false, nil, nil, nil, schema.PointerTo("7"), nil),
+		"y": optProp(schema.NewStringSchema(nil, nil, nil)),
+	}))
+}
+
+func optStep() schema.CallableStep {
+	return schema.NewCallableStep[optData](
+		"opt", optScope("OptIn"),
+		map[string]*schema.StepOutputSchema{"success": schema.NewStepOutputSchema(optScope("OptOut"), nil, false)},
+		nil,
+		func(_ context.Context, in optData) (string, any) { return "success", in },
+	)
+}
+
+func optInputs() []any {
+	return []any{nil, map[string]any{}, map[string]any{"x": 5}, map[string]any{"y": "s"}, "not a map", map[any]any{"x": "9", "y": "t"}, []any{}}
+}
+
 // echoInputs: raw inputs as a decoder or a careless caller may hand them over; index = payload number.
 func echoInputs() []any {
 	base := func() map[string]any {
@@ -149,8 +176,8 @@ type echoExpect struct {
 }
 
 // inProcess computes what calling the step directly returns for the payload.
-func inProcess(plug *schema.CallableSchema, runID string, payload any) echoExpect {
-	id, data, err := plug.CallStep(context.Background(), runID, "echo", payload)
+func inProcess(plug *schema.CallableSchema, runID string, stepID string, payload any) echoExpect {
+	id, data, err := plug.CallStep(context.Background(), runID, stepID, payload)
 	if err != nil {
 		return echoExpect{Err: err.Error()}
 	}
